@@ -127,3 +127,109 @@ Theorem C03_assign_example :
   assign [10; 11; 30; 5000] [10; 25; 2147483647] = Ok [0; 1; 2; 2]%nat.
 Proof. exact assign_example. Qed.
 Print Assumptions C03_assign_example.
+
+(* ---- simulated breakpoints: variants past the last map coordinate; every output cell ---------- *)
+From HV Require Import Tiling C03_ProofsE2E C03_SimCheck.
+
+(* breakpoints as simgenotype writes them - sorted by (chromosome, end), chromosome c closed by the
+   int32-max sentinel (C02: on EVERY requested chromosome) - cover every variant position up to the
+   sentinel, wherever the genetic map ended: the hypothesis of C03_no_uninitialised holds for them *)
+Theorem C03_sentinel_covers : forall hap c (cv : list cvar),
+  sorted hap -> 0 <= c -> (forall s, In s hap -> 0 <= endc s) ->
+  (exists s, In s hap /\ chrom s = c /\ endc s = MAXC) ->
+  asc (map (fun v : cvar => snd v) cv) -> (forall p, In p (map (fun v : cvar => snd v) cv) -> p <= MAXC) ->
+  chrom_covered hap c cv.
+Proof. exact sentinel_covers. Qed.
+Print Assumptions C03_sentinel_covers.
+
+(* the tracts _convert_haplotype walks over (binary search + scan) are the haplotype's tracts of the chromosome *)
+Theorem C03_segs_of_filter : forall c hap, sorted hap -> 0 <= c -> (forall s, In s hap -> 0 <= endc s) ->
+  segs_of c hap = filter (on_c c) hap.
+Proof. exact segs_of_filter. Qed.
+Print Assumptions C03_segs_of_filter.
+
+(* a variant past every other block end (past the last map coordinate) belongs to the last block *)
+Theorem C03_variant_past_last_coordinate : forall pre x p,
+  (forall e, In e pre -> e < p) -> p <= x -> first_ge (pre ++ [x]) p = length pre.
+Proof. exact first_ge_past. Qed.
+Print Assumptions C03_variant_past_last_coordinate.
+
+(* output_allele_spec: one statement about every output cell of the model, composing the assignment
+   (C03_assign_is_first_ge), the per-block choice of the reference haplotype and the writer.
+   For every configuration on which the model completes, with distinct requested chromosomes and
+   breakpoints covering the variants read: for every simulated haplotype h and requested chromosome c
+   there is ONE list of blocks - one per tract of c, with the tract's end and label; in replacement
+   mode the block's sample is one the sample-info table lists under that label, without replacement
+   its strand is 0 or 1 - such that every output row i whose variant (panel index oidx) lies on c
+   holds, with b the block at index first_ge ends position: GT = the allele of reference haplotype
+   (b_samp b, b_strand b) at oidx; POP = b's label and SAMPLE = b's sample whenever those fields are
+   written; the records written are the variants read on the requested chromosomes.
+   (Not proved: that without replacement the sample belongs to the label's population - the recorded
+   shuffles are unconstrained inputs of the model; the checker evaluates it on every output.) *)
+Theorem C03_output_allele_spec : forall (g : config) (out : output),
+  output_vcf g = Ok out -> NoDup (g_chroms g) ->
+  forall cur_chr, (exists i0 v0 r, read_vars (g_region g) (g_vars g) = (i0, v0) :: r /\ cur_chr = rv_chr v0) ->
+  let ov := out_vars cur_chr (g_chroms g) (read_vars (g_region g) (g_vars g)) in
+  (forall hap, In hap (g_bps g) -> forall c, In c (g_chroms g) -> chrom_covered hap c (cvars_of cur_chr c ov)) ->
+  o_vars out = map fst ov /\
+  forall h hap, nth_error (g_bps g) h = Some hap ->
+  forall c, In c (g_chroms g) ->
+  exists bl, blocks_of (g_norep g) (g_tab g) hap c bl /\
+    forall i oidx v, nth_error ov i = Some (oidx, v) -> on_chrom cur_chr c v = true ->
+      exists b a, nth_error bl (first_ge (map endc (segs_of c hap)) (rv_pos v)) = Some b /\
+        lookup (g_data g) (b_samp b) oidx (b_strand b) = Some a /\
+        cell_at (o_gt out) h i = Some (Some a) /\
+        (forall m, o_pop out = Some m -> cell_at m h i = Some (Some (b_pop b))) /\
+        (forall m, o_smp out = Some m -> cell_at m h i = Some (Some (b_samp b))).
+Proof. exact output_allele_spec. Qed.
+Print Assumptions C03_output_allele_spec.
+
+(* its hypotheses are satisfiable *)
+Example C03_output_allele_example :
+  output_vcf ex_cfg = Ok (mkout [0; 2] [[Some 0; Some 3]; [Some 0; Some 0]]
+                                (Some [[Some 1; Some 2]; [Some 1; Some 1]])
+                                (Some [[Some 0; Some 1]; [Some 0; Some 0]]))
+  /\ NoDup (g_chroms ex_cfg)
+  /\ (exists i0 v0 r, read_vars (g_region ex_cfg) (g_vars ex_cfg) = (i0, v0) :: r /\ false = rv_chr v0)
+  /\ (forall hap, In hap (g_bps ex_cfg) -> forall c, In c (g_chroms ex_cfg) ->
+        chrom_covered hap c (cvars_of false c (out_vars false (g_chroms ex_cfg)
+                                                 (read_vars (g_region ex_cfg) (g_vars ex_cfg))))).
+Proof. exact output_allele_example. Qed.
+Print Assumptions C03_output_allele_example.
+
+(* the end-to-end checker's block rule: first tract of the chromosome reaching the position, else
+   the chromosome's last tract; total on every chromosome the haplotype has a tract of *)
+Theorem C03_sim_key_spec : forall hap c p j lab, sim_key hap c p = Some (j, lab) ->
+  exists s, nth_error hap j = Some s /\ chrom s = c /\ pop s = lab /\
+    ((p <= endc s /\ forall m t, (m < j)%nat -> nth_error hap m = Some t -> ~ (chrom t = c /\ p <= endc t))
+     \/ ((forall t, In t hap -> chrom t = c -> endc t < p) /\
+         forall m t, (j < m)%nat -> nth_error hap m = Some t -> chrom t <> c)).
+Proof. exact sim_key_spec. Qed.
+Print Assumptions C03_sim_key_spec.
+
+Theorem C03_sim_key_total : forall hap c p, (exists s, In s hap /\ chrom s = c) -> sim_key hap c p <> None.
+Proof. exact sim_key_total. Qed.
+Print Assumptions C03_sim_key_total.
+
+Theorem C03_hap_ok_sim_sound : forall c out h,
+  hap_ok_sim c out h = true -> sorted (nth_or [] (g_bps c) h) ->
+  forall it, In it (items_sim c out h) -> forall k, i_key it = Some k ->
+  (exists r u, In r (cands c (snd k)) /\ (u = 0 \/ u = 1) /\
+     forall it', In it' (items_sim c out h) -> i_key it' = Some k ->
+       exists a, i_gt it' = Some a /\ lookup (g_data c) r (i_oidx it') u = Some a /\
+                 (forall s, i_smp it' = Some s -> s = Some r))
+  /\ (forall p, i_pop it = Some p -> p = Some (snd k)).
+Proof. exact hap_ok_sim_sound. Qed.
+Print Assumptions C03_hap_ok_sim_sound.
+
+Theorem C03_holds_sim_out_sound : forall c out,
+  holds_sim_out c out = true ->
+  (g_pop_field c = true -> g_pgen c = false -> o_pop out <> None) /\
+  (g_sample_field c = true -> g_pgen c = false -> o_smp out <> None) /\
+  length (o_gt out) = length (g_bps c) /\
+  (forall h, (h < length (g_bps c))%nat -> hap_ok_sim c out h = true) /\
+  (uniform_prefix (g_vars c) = true ->
+   o_vars out = map fst (filter (fun iv : Z * rvar => existsb (Z.eqb (rv_chrom (snd iv))) (g_chroms c))
+                                (read_vars (g_region c) (g_vars c)))).
+Proof. exact holds_sim_out_sound. Qed.
+Print Assumptions C03_holds_sim_out_sound.
